@@ -229,7 +229,8 @@ theorem subEnter_keeps (s : St) (c p : Nat) :
     · have := g.top x hx; omega
     · exact gl x hx
 
-theorem subBack_keeps {s s1 : St} (h : Keeps s s1) : Keeps s { s with evs := s1.evs, ok := s1.ok, sync := s1.sync } := by
+theorem subBack_keeps {s s1 : St} (sv : List Nat) (h : Keeps s s1) :
+    Keeps s { s with evs := s1.evs, ok := s1.ok, sync := s1.sync, uses := s1.uses, subVis := sv } := by
   intro h'
   have := h h'
   exact ⟨this.1, fun g => ⟨g.top, g.loc, (this.2 g).evs⟩⟩
@@ -276,7 +277,7 @@ theorem runF_keeps : ∀ (o : FOp) (s : St), Keeps s (runF o s)
   | .subTop c p body, s => by
     simp only [runF]
     have h1 := (subEnter_keeps s c p).trans (runFs_keeps body _)
-    exact ((subBack_keeps h1).trans (sameCore_stat _).keeps).trans (sameCore_put _ _).keeps
+    exact ((subBack_keeps _ h1).trans (sameCore_stat _).keeps).trans (sameCore_put _ _).keeps
 theorem runFs_keeps : ∀ (os : List FOp) (s : St), Keeps s (runFs os s)
   | [], s => by simpa [runFs] using Keeps.refl s
   | o :: r, s => by
@@ -286,7 +287,9 @@ theorem runFs_keeps : ∀ (os : List FOp) (s : St), Keeps s (runFs os s)
     · exact seal_keeps _ _
     · exact Keeps.refl _
 theorem runE_keeps : ∀ (o : EOp) (s : St), Keeps s (runE o s)
-  | .write t, s => by simpa [runE] using (sameCore_put s t).keeps
+  | .write t, s => by
+    simp only [runE]
+    exact (sameCore_put s t).keeps.trans (fun h => ⟨h, fun g => ⟨g.top, g.loc, g.evs⟩⟩)
   | .fn args body, s => by
     simp only [runE]
     exact (leave_keeps ((enter_keeps s _).trans (runFs_keeps body _))).trans (sameCore_put _ _).keeps
@@ -315,7 +318,7 @@ end
 theorem runScope_keeps (body : List FOp) (s : St) : Keeps s (runScope body s) := by
   unfold runScope
   intro h
-  have h0 : Keeps s { s with w := "", loc := none, locVis := [], top := { s.top with blk := { s.top.blk with sep := false } } } :=
+  have h0 : Keeps s { s with w := "", loc := none, locVis := [], subVis := [], top := { s.top with blk := { s.top.blk with sep := false } } } :=
     fun h => ⟨h, fun g => ⟨g.top, rfl, g.evs⟩⟩
   have := (h0.trans (runFs_keeps body _)) h
   refine ⟨this.1, fun g => ⟨(this.2 g).top, ?_, (this.2 g).evs⟩⟩
@@ -333,7 +336,7 @@ theorem runRoot_keeps_aux : ∀ (scopes : List (List FOp)) (s : St), Keeps s (sc
     -- `runScope` does not look at `s.loc` (it starts from `loc := none`)
     intro h
     unfold runScope at h ⊢
-    have h0 : Keeps s { s with w := "", loc := none, locVis := [], top := { s.top with blk := { s.top.blk with sep := false } } } :=
+    have h0 : Keeps s { s with w := "", loc := none, locVis := [], subVis := [], top := { s.top with blk := { s.top.blk with sep := false } } } :=
       fun h => ⟨h, fun g => ⟨g.top, rfl, g.evs⟩⟩
     have := (h0.trans (runFs_keeps b _)) h
     exact ⟨this.1, fun g => ⟨(this.2 g).top, (this.2 g).loc, (this.2 g).evs⟩⟩
